@@ -185,6 +185,31 @@ def _extract_omega_delta_phi(
     return omega_c, delta_c, phi_c
 
 
+def _zero_drive_for_untargeted_atoms(
+    noisy_samples: SequenceSamples,
+    qubit_ids: tuple[QubitId, ...],
+    *drives: torch.Tensor,
+) -> tuple[torch.Tensor, ...]:
+    """
+    Atoms that no channel ever targets have no samples, hence no column in the
+    extracted drives. Insert zero columns for them, such that column k always
+    belongs to the k-th atom of the register.
+    """
+    local_samples = noisy_samples.to_nested_dict(all_local=True)["Local"]
+    targeted = next(iter(local_samples.values()))
+    columns = [pos for pos, qid in enumerate(qubit_ids) if qid in targeted]
+    if len(columns) == len(qubit_ids):
+        return drives
+    expanded = []
+    for drive in drives:
+        full = torch.zeros(
+            drive.shape[0], len(qubit_ids), dtype=drive.dtype, device=drive.device
+        )
+        full[:, columns] = drive
+        expanded.append(full)
+    return tuple(expanded)
+
+
 class _InteractionMatrixCallable:
     """
     Callable wrapper returning the SLM-masked or full interaction matrix
@@ -325,6 +350,9 @@ class PulserData:
 
             omega, delta, phi = _extract_omega_delta_phi(
                 samples.samples, self.qubit_ids, self.target_times
+            )
+            omega, delta, phi = _zero_drive_for_untargeted_atoms(
+                samples.samples, self.qubit_ids, omega, delta, phi
             )
 
             interaction_matrix = _InteractionMatrixCallable(
